@@ -17,7 +17,9 @@ R = Rules(
         "with that remote is active and deletes only an empty entry; exchanges are started only from the guarded "
         "sites; a non-empty backlog is only dropped together with a dispatch_error for the same remote; an exchange "
         "is taken out of the table only under its complete key (remote and message ID handed to the remover) or, "
-        "when selected by remote alone, by a function that fails that remote's requests.  Liveness "
+        "when selected by remote alone, by a function that fails that remote's requests; the remotes that key both "
+        "tables hash equally whenever they compare equal (their classes' own constructor, __eq__ and __hash__ run over "
+        "a finite domain of addresses).  Liveness "
         "under arbitrary timing is not decided."
     ),
     rule_text=(
@@ -1050,6 +1052,94 @@ def j(ctx):
                detail=("may store %s; compared by identity in %s" % ("; ".join(raw + opq), "; ".join(where))) if raw and ident else None)
 
 
+# reference domain for constructor arguments of endpoint addresses: socket addresses as the socket module hands them
+# out (AF_INET6: (host, port, flowinfo, scope_id), each component varied on its own), host names, and two distinct
+# objects the evaluation does not look into (interfaces, connections, contexts)
+_ADDR_POOL = (
+    ("2001:db8::1", 5683, 0, 0),
+    ("2001:db8::1", 5683, 0, 3),
+    ("2001:db8::1", 5683, 1, 0),
+    ("2001:db8::1", 5684, 0, 0),
+    ("2001:db8::2", 5683, 0, 0),
+    "host.example",
+    "other.example",
+)
+
+
+@R.clause("C14.l", "the tables are keyed by the remote: remotes that compare equal hash equally (every endpoint-address class with its own __eq__ / __hash__, run over a finite domain of addresses), so the membership test, the backlog lookup and the exchange lookup find the entry made under an equal remote")
+def l(ctx):
+    """`remote in self._backlogs`, `self._backlogs[remote]` and `(remote, mid) in self._active_exchanges` are dict
+    operations: they find the entry created for an *equal* remote only if equal remotes hash equally.  An address
+    class is free to ignore parts of the address in __eq__ (UDP6EndpointAddress ignores the scope id and the local
+    address: the remote of a request built from a URI with a zone identifier and the remote of the datagram that
+    answers it are the same peer), but then __hash__ must ignore them as well -- otherwise the second CON to that
+    peer does not see the backlog entry of the first (two CONs in flight) and the ACK does not find the exchange.
+
+    Decided by running the class's own constructor, __eq__ and __hash__ (K.KeyObjects, a concrete interpreter of
+    the straight-line / branching subset such methods are written in; properties, helper methods, cached hashes,
+    NotImplemented for foreign operands are all just evaluated) on every pair of instances built from the reference
+    domain above: a pair that compares equal and hashes differently is the witness of a violation.  What the
+    interpreter cannot run is refused.  Also Python's own rule: a class body that defines __eq__ without __hash__
+    makes its instances unhashable (no exchange could be opened at all)."""
+    prog = ctx.prog
+    base = prog.cls("interfaces.EndpointAddress")
+    n_cls = n_pairs = 0
+    for q in sorted(prog.subclasses(base.qn)):
+        if q == base.qn:
+            continue
+        ci = prog.classes[q]
+        ko = K.KeyObjects(prog)
+        eqd, hd = ko.lookup(ci, "__eq__"), ko.lookup(ci, "__hash__")
+        if eqd is None and hd is None:
+            continue  # identity, or inherited from a builtin value type (namedtuple): consistent by construction
+        n_cls += 1
+        short = q.rsplit(".", 1)[-1]
+        pin = (hd or eqd)
+        pin_fi = pin[1] if pin[0] == "method" else None
+        # Python: the first class along the MRO whose body defines __eq__ or __hash__ decides hashability
+        first = next(c for c in (prog.classes.get(x) for x in prog.mro(q)) if c is not None and any(n in c.methods or n in c.attrs for n in ("__eq__", "__hash__")))
+        for x in prog.mro(q):
+            c = prog.classes.get(x)
+            ctx.need(c is None or not c.node.decorator_list or c is base, "%s: class decorator on %s may generate or replace __eq__ / __hash__" % (short, x))
+        ctx.need(all(k is None or k[0] == "method" for k in (eqd, hd)), "%s: __eq__ / __hash__ bound by assignment in the class body" % short)
+        hashable = "__hash__" in first.methods
+        ctx.ob("an endpoint-address class whose body defines __eq__ defines __hash__ as well (otherwise Python makes its instances unhashable and no remote of that class can key a backlog or an exchange)",
+               hashable, pin_fi, pin_fi.node if pin_fi else None, construct="class %s: __eq__ / __hash__" % short)
+        if not hashable or eqd is None:
+            continue  # __hash__ alone: equality is identity, one object has one hash as long as __hash__ is a function (run below for eq classes only)
+        try:
+            insts = ko.instances(ci, list(_ADDR_POOL) + [K.KOpaque("an object", plain=True), K.KOpaque("another object", plain=True)])
+            ctx.need(len(insts) >= 2, "%s: the constructor accepts fewer than two of the reference arguments: nothing to compare" % short)
+            hashes = {}
+            for a in insts:
+                try:
+                    hashes[id(a)] = ko.hash_of(a)
+                except (K._KRaised, TypeError, ValueError, IndexError, KeyError, AttributeError):
+                    pass  # hashing this instance raises in the library too: it never becomes a key
+            witness = None
+            for a in insts:
+                for b in insts:
+                    if a is b or id(a) not in hashes or id(b) not in hashes:
+                        continue
+                    try:
+                        same_ = ko.truth(ko.equal(a, b))
+                    except (K._KRaised, TypeError, ValueError, IndexError, KeyError, AttributeError):
+                        continue
+                    if same_:
+                        n_pairs += 1
+                        # a cached hash may be filled in lazily: ask again after the comparison
+                        if ko.hash_of(a) != ko.hash_of(b) and witness is None:
+                            witness = (a, b)
+        except K.KUnsupported as ex:
+            ctx.need(False, "%s: __init__ / __eq__ / __hash__ cannot be run by the rule's interpreter: %s" % (short, ex))
+        hfi = hd[1]
+        ctx.ob("remotes that compare equal hash equally: a table entry made under one of them is found under the other (membership test of send_message, backlog and exchange lookups)",
+               witness is None, hfi, hfi.node, construct="class %s: __eq__ / __hash__" % short,
+               detail=None if witness is None else "%r == %r, but their hashes differ" % witness)
+    ctx.floor("endpoint-address classes with their own __eq__ / __hash__", n_cls, 1)
+    ctx.floor("pairs of distinct, equal remotes the hashes were compared on", n_pairs, 1)
+
+
 F_MM = "aiocoap/messagemanager.py"
 R.seed("C14.a", F_MM, "        self.log.debug(\"Exchange removed, message ID: %d.\", message.mid)\n\n        self._continue_backlog(message.remote)\n", "        self.log.debug(\"Exchange removed, message ID: %d.\", message.mid)\n", "backlog never continued")
 R.seed("C14.a", F_MM, "        if message.remote not in self._backlogs:\n            self._backlogs[message.remote] = []\n", "", "no backlog entry for the new exchange")
@@ -1095,3 +1185,10 @@ R.seed("C14.j", "aiocoap/message.py", "        if _mtype is None:\n            #
 R.seed("C14.k", F_MM, "        key = (message.remote, message.mid)\n\n        if key not in self._active_exchanges:\n            # Before turning", "        key = next((k for k in self._active_exchanges if k[0] == message.remote), None)\n\n        if key not in self._active_exchanges:\n            # Before turning", "an ACK / RST ends whatever exchange is open with its sender, whatever message ID it carries")
 R.seed("C14.k", F_MM, "        messageerror_monitor, next_retransmission = self._active_exchanges.pop(key)\n        next_retransmission.cancel()\n        if message.mtype is RST:", "        for key in [k for k in self._active_exchanges if k[0] == message.remote]:\n            messageerror_monitor, next_retransmission = self._active_exchanges.pop(key)\n        next_retransmission.cancel()\n        if message.mtype is RST:", "every exchange with the sender of an ACK is ended, not the one it names")
 R.seed("C14.k", F_MM, "        self.token_manager.dispatch_error(error, remote)\n\n        keys_for_removal = []", "        keys_for_removal = []", "exchanges selected by remote alone are dropped and nothing is failed")
+F_UDP6 = "aiocoap/transports/udp6.py"
+R.seed("C14.l", F_UDP6, "        return hash(self.sockaddr[:-1])\n", "        return hash(self.sockaddr)\n", "the hash covers the scope id that __eq__ ignores: the remote of a request with a zone identifier and the remote of its ACK are equal but land in different buckets -- `remote in _backlogs` misses, two CONs in flight")
+R.seed("C14.l", F_UDP6, "        return self.sockaddr[:-1] == other.sockaddr[:-1]\n", "        return self.sockaddr[:2] == other.sockaddr[:2]\n", "__eq__ made coarser than __hash__ (flow info ignored by the comparison only)")
+R.seed("C14.l", F_UDP6, "    def __hash__(self):\n        return hash(self.sockaddr[:-1])\n\n", "", "__eq__ without __hash__: remotes are unhashable")
+R.seed("C14.l", F_UDP6, "        return hash(self.sockaddr[:-1])\n", "        return hash((self.sockaddr[:-1], self.pktinfo))\n", "the hash includes the local address, which equality ignores")
+R.seed("C14.l", "aiocoap/transports/slipmux.py", "        return hash(self._host)\n", "        return hash((self._host, self._interface))\n", "the hash of a serial-line remote includes the interface reference its __eq__ ignores")
+
